@@ -223,7 +223,7 @@ def build_model_driver(comp):
     exe = os.path.join(BUILD, comp.NAME + '_model_drv')
     ext = os.path.join(COQ, comp.EXTRACT)
     mod = comp.ML  # e.g. latch_model
-    deps = [os.path.join(COQ, f) for f in coq_closure(comp.EXTRACT)] + [os.path.join(ROOT, 'ocaml', 'drv.ml')]
+    deps = [os.path.join(COQ, f) for f in coq_closure(comp.EXTRACT)] + [os.path.join(ROOT, 'ocaml', f) for f in ('drv.ml', 'drv_enum.ml', 'drv_main.ml')]
     h = hashlib.sha256()
     for d in deps:
         h.update(open(d, 'rb').read())
@@ -238,6 +238,9 @@ def build_model_driver(comp):
         with open(os.path.join(ml, 'main.ml'), 'w') as f:
             f.write('open %s\n' % mod.capitalize())
             f.write(open(os.path.join(ROOT, 'ocaml', 'drv.ml')).read())
+            if getattr(comp, 'ENUM', False):
+                f.write(open(os.path.join(ROOT, 'ocaml', 'drv_enum.ml')).read())
+            f.write(open(os.path.join(ROOT, 'ocaml', 'drv_main.ml')).read())
         rc, out2, _ = sh('ocamlfind ocamlopt -O3 -w -a %s.mli %s.ml main.ml -o %s 2>&1 || ocamlfind ocamlopt -w -a %s.mli %s.ml main.ml -o %s'
                          % (mod, mod, exe, mod, mod, exe), cwd=ml, timeout=600)
         if rc != 0:
